@@ -34,14 +34,14 @@ func (s *scen) roots() map[string][]chainsim.Action {
 	f2 := append(append([]chainsim.Action{}, f...), s.freeAlloc("c1", "c1", 2, 3.5, 5, "", []int{1, 2, 3}, 0), s.freeAlloc("c1", "c1", 2, 3.5, 3, "", []int{1, 2, 3}, 0))
 	awc := append(s.rootAW(), s.genChallenge(0))
 	awk := append(s.rootAW(), s.kill("scowner", "b0"))
-	return map[string][]chainsim.Action{"AWP": s.rootAWP(), "TD": s.rootTD(), "base": s.rootBase(), "A": s.rootA(), "AW": s.rootAW(), "AWC": awc, "AWK": awk, "AB": ab, "F": f, "F2": f2}
+	return map[string][]chainsim.Action{"AO": s.rootAO(), "AWP": s.rootAWP(), "TD": s.rootTD(), "base": s.rootBase(), "A": s.rootA(), "AW": s.rootAW(), "AWC": awc, "AWK": awk, "AB": ab, "F": f, "F2": f2}
 }
 
 // fullAlphabet is the union of every action used by some check (the probe command picks from it).
 func (s *scen) fullAlphabet() []chainsim.Action {
 	var out []chainsim.Action
 	seen := map[string]bool{}
-	for _, l := range [][]chainsim.Action{s.dryAlphabet(true), s.lifeAlphabet(2), s.closeAlphabet(true), s.readAlphabet(true), s.freeAlphabet(true), s.capAlphabet(true), s.lateFailing()} {
+	for _, l := range [][]chainsim.Action{s.oddAlphabet(true), s.dryAlphabet(true), s.lifeAlphabet(2), s.closeAlphabet(true), s.readAlphabet(true), s.freeAlphabet(true), s.capAlphabet(true), s.lateFailing()} {
 		for _, a := range l {
 			if !seen[a.Name] {
 				seen[a.Name] = true
@@ -150,6 +150,29 @@ func (s *scen) capAlphabet(wide bool) []chainsim.Action {
 	return a
 }
 
+// oddAlphabet: allocation O whose size is not a multiple of the data shards: resize by further
+// non-multiples, then add / replace blobbers, further allocations, close (C13).
+func (s *scen) oddAlphabet(wide bool) []chainsim.Action {
+	a := []chainsim.Action{
+		s.update("O", "c0", GB+1, false, -1, -1, ZCN, 0, 0),
+		s.update("O", "c0", 0, false, 3, -1, 2*ZCN, 0, 0),
+		s.update("O", "c0", 0, false, 3, 1, ZCN, 0, 0),
+		s.update("O", "c0", 0, false, 3, 0, ZCN, 0, 0),
+		s.newAlloc("c1", []int{0, 1, 3}, allocSize/2+3, 2*ZCN, 0),
+		s.cancel("O", "c0", 0, 0),
+		s.finalize("O", "b2", late, 0),
+	}
+	if wide {
+		a = append(a,
+			s.update("O", "c0", 3, false, -1, -1, ZCN, 0, 0),
+			s.update("O", "c0", 0, true, -1, -1, ZCN, 0, 0),
+			s.cancel("dyn:c1", "c1", 0, 0),
+			s.kill("scowner", "b1"),
+		)
+	}
+	return a
+}
+
 // closeAlphabet: who may close when, repeated closes, operations after closing (C14).
 func (s *scen) closeAlphabet(wide bool) []chainsim.Action {
 	a := []chainsim.Action{
@@ -166,10 +189,10 @@ func (s *scen) closeAlphabet(wide bool) []chainsim.Action {
 		s.commit("A", 0, 200<<20, "", 3),
 		s.genChallenge(0),
 		s.challengeResponse("A", 0, "pass", 0, 0),
+		s.challengeResponse("A", 0, "fail", 0, 0),
 	}
 	if wide {
 		a = append(a,
-			s.challengeResponse("A", 0, "fail", 0, 0),
 			s.readRedeem("A", 0, "c0", 1, "", 3),
 			s.finalize("A", "b3", late, 3),
 			s.tick("b3", TU-3),
@@ -376,13 +399,18 @@ func c13(run *ev.Run, variant string) {
 	s := newScen(0.1)
 	r := s.roots()
 	run.Rule = "BFS over sequences of new allocations on the capacity- and stake-tight blobber b0, resize, add/replace blobber, cancel/finalize, kill/shutdown, blobber settings updates and stake changes; after every transition, for EVERY blobber node: Allocated == sum of its sizes over all open allocations, <= Capacity when something was assigned, stake pool TotalOffers == sum of Offer() over those allocations; a close must never fail for want of a releasable offer"
+	if variant == "odd" {
+		run.Rule = "BFS over sequences on allocation O whose size (2 GiB + 1) is not a multiple of its data shards: resize by further non-multiples, add blobber, replace blobber, a further odd-sized allocation, cancel, finalize; same per-blobber oracle (Allocated == sum of sizes over open allocations, TotalOffers == sum of Offer(), <= capacity at assignment)"
+		s.explore(run, s.oddAlphabet(run.Thorough()), pick(run, r, "AO"), 3, 4, s.capMonitor)
+		return
+	}
 	s.explore(run, s.capAlphabet(run.Thorough()), pick(run, r, "A", "AW"), 3, 4, s.capMonitor)
 }
 
 func c14(run *ev.Run, variant string) {
 	s := newScen(0.1)
 	r := s.roots()
-	run.Rule = "BFS over sequences of cancel/finalize by owner, blobber, stranger before and after expiry (repeated), then write-pool lock, update, write marker, challenge response, read marker on the closed allocation; oracle per transition: a close succeeds only for an authorised caller at the right time on an existing allocation and removes allocation and challenge pool; blobbers receive <= outstanding challenge value + cancellation charge; owner refund + blobber payments == write pool + challenge pool; any operation naming a closed allocation fails and changes only fee/nonce"
+	run.Rule = "BFS over sequences of cancel/finalize by owner, blobber, stranger before and after expiry (repeated), then write-pool lock, update, write marker, challenge response, read marker on the closed allocation; oracle per transition: a close succeeds only for an authorised caller at the right time on an existing allocation and removes allocation and challenge pool; blobbers receive <= outstanding challenge value + cancellation charge, and in total no more than the configured cancellation charge beyond the challenge value earned since their last finalized challenge; an authorised close at the right time does not fail (also with a fresh open challenge); owner refund + blobber payments == write pool + challenge pool; any operation naming a closed allocation fails and changes only fee/nonce"
 	s.explore(run, s.closeAlphabet(run.Thorough()), pick(run, r, "AW", "AWC", "AWK"), 3, 4, s.closeMonitor)
 }
 
